@@ -475,8 +475,9 @@ def _no_core():
 
 
 class Session(object):
-    def __init__(self, exe, rundir, tag):
+    def __init__(self, exe, rundir, tag, delay=None):
         self.exe = exe
+        self.delay = delay          # hook H3: "<permille>:<max_us>:<seed>" or None
         self.rundir = rundir
         self.peer = vpeer.Peer(rundir, "peer-" + tag)
         self.errpath = os.path.join(rundir, "stderr-" + tag)
@@ -497,6 +498,8 @@ class Session(object):
         # gives every list link / hash entry its own heap block for ASan.
         env["DBUS_DISABLE_MEM_POOLS"] = "1"
         env["VERIF_C17_TIMER_GATE"] = timer_gate()
+        if self.delay:
+            env["DBUS_VERIF_DELAY"] = self.delay
         self.proc = subprocess.Popen([self.exe, self.peer.address], stdin=subprocess.PIPE, stdout=subprocess.PIPE,
                                      stderr=self.errf, env=env, preexec_fn=_no_core)
         os.set_blocking(self.proc.stdout.fileno(), False)
@@ -885,11 +888,21 @@ def _worker(args):
     for j in range(n_rr):
         cases.insert(min(len(cases), j * (step + 1) + (2 * step) // 3), make_rr_case(rng_rr))
     rundir = tempfile.mkdtemp(prefix="verif-c17-")
-    ses = Session(exe, rundir, flavor)
+    # hook H3 (delay points after every release of the connection lock) in every second shard: the same kinds of scripts under
+    # other interleavings than the scheduler alone produces; the other shards keep the undisturbed timing
+    delay = None
+    if shard % 2 == 1:
+        rng_d = gen.rng_for(seed, PROP, "delay", shard)
+        delay = "%d:%d:%d" % (rng_d.choice([40, 120, 350]), rng_d.choice([0, 60, 400, 2000]), (seed * 131 + shard) & 0x7FFFFFFF)
+    ses = Session(exe, rundir, flavor, delay=delay)
     try:
         for i, case in enumerate(cases):
             part.evaluations += 1
             part.count("scripts:" + flavor)
+            if delay:
+                part.count("scripts-with-delay-points:" + flavor)
+                if case["nthreads"] > 1:
+                    part.count("mt-scripts-with-delay-points")
             part.count("threads:%d" % case["nthreads"])
             if case.get("rr"):
                 part.count("rr-cases")
@@ -1011,6 +1024,9 @@ def run(tier, seed, replay=None, scale=1.0):
     full = scale >= 1
     r.require("scripts:asan", 500 if full else 1)
     r.require("scripts:tsan", 500 if full else 1)
+    r.require("scripts-with-delay-points:asan", 200 if full else 1)
+    r.require("scripts-with-delay-points:tsan", 200 if full else 1)
+    r.require("mt-scripts-with-delay-points", 150 if full else 1)
     r.require("calls-judged", 2000 if full else 1)
     r.require("completed:peer-return", 300 if full else 1)
     r.require("completed:local-timeout", 100 if full else 1)
@@ -1060,7 +1076,8 @@ def run(tier, seed, replay=None, scale=1.0):
     r.extra["flavors"] = ["asan", "tsan"]
     r.extra["timer_gate"] = timer_gate()
     r.extra["report_key_families_multithreaded"] = list(FAMILIES)
-    r.extra["hooks"] = "H3 delay points not installed; schedule diversity comes from peer reply timing, thread placement and sleeps"
+    r.extra["hooks"] = ("H3 delay points (after every release of the connection lock: yield / sleep up to 2 ms with probability 4..35 %) are "
+                        "active in every second shard; H4 (serial counter) in the serial part")
     r.assumptions = ["the harness is a valid API client: it installs DBusTimeout functions and calls dbus_timeout_handle for enabled, "
                      "elapsed, not-removed timeouts; it never steals before completion or twice, cancels at most once",
                      "timer gate %s: %s" % (timer_gate(), "dbus_timeout_handle is only called while no other thread is inside a libdbus "
